@@ -12,7 +12,7 @@ Ghost data (does not influence behaviour; used only to state the theorems): `Cb.
 created the callback and on which of the two lists it was put), `State.regs` (promise each `then()` call was
 made on), `State.during` (was that promise in the middle of a notification with callbacks still waiting),
 `Prom.origin` (who created the promise), `Coll.rids` (the `then()` calls made by the loop of `Promise.all` /
-`wait_promises` so far), all `Event`s other than `call`, and the distinction between `Fn.bind` (a bound method passed by
+`wait_promises` so far), all `Event`s other than `call`, and the distinction between `UFn.bind` (a bound method passed by
 the user) and `Fn.adopt` (the same bound method passed by `wrapper` when it adopts a returned promise).
 -/
 namespace RedunModel.Promise
@@ -44,21 +44,15 @@ inductive Outcome where
   deriving Repr, Inhabited
 
 mutual
-  /-- What can be passed to `then` as resolver / rejector (and is called by `wrap_callback.wrapper`). -/
-  inductive Fn where
+  /-- What user code can pass to `then` as resolver / rejector. -/
+  inductive UFn where
     /-- a user function: log `id`, perform `acts`, end with `out` -/
     | script (id : Nat) (acts : List Act) (out : Outcome)
-    /-- the bound method `p.do_resolve` / `p.do_reject` (returns its argument), passed by user code -/
+    /-- the bound method `p.do_resolve` / `p.do_reject` (returns its argument) -/
     | bind (b : Br) (p : Nat)
-    /-- the same bound method, passed by `wrapper` itself: `result2.then(promise.do_resolve, promise.do_reject)` -/
-    | adopt (b : Br) (p : Nat)
-    /-- closures of `Promise.all`: `make_then(i)` and `fail`; of `wait_promises`: `done` (all return None) -/
-    | allThen (a : Nat) (i : Nat)
-    | allFail (a : Nat)
-    | waitDone (w : Nat)
   /-- One statement of a user function (or one top-level operation). -/
   inductive Act where
-    | then_ (p : Nat) (r : Option Fn) (j : Option Fn)     -- p.then(r, j)   (catch = then(None, j))
+    | then_ (p : Nat) (r : Option UFn) (j : Option UFn)   -- p.then(r, j)   (catch = then(None, j))
     | settle (b : Br) (p : Nat) (v : Val)                 -- p.do_resolve(v) / p.do_reject(v)
     | settleArg (b : Br) (p : Nat)                        -- p.do_resolve(arg) / p.do_reject(arg)
     | new                                                 -- Promise()
@@ -66,6 +60,18 @@ mutual
     | all (ps : List Nat)                                 -- Promise.all([...])
     | wait (ps : List Nat)                                -- wait_promises([...])
 end
+
+/-- What `wrap_callback.wrapper` can be wrapped around: a function passed by the user, or one of the closures
+that `redun/promise.py` itself passes to `then` (user code has no access to those). -/
+inductive Fn where
+  | user (f : UFn)
+  /-- `promise.do_resolve` / `promise.do_reject` passed by `wrapper` itself when it adopts a returned promise:
+  `result2.then(promise.do_resolve, promise.do_reject)` -/
+  | adopt (b : Br) (p : Nat)
+  /-- closures of `Promise.all`: `make_then(i)` and `fail`; of `wait_promises`: `done` (all return None) -/
+  | allThen (a : Nat) (i : Nat)
+  | allFail (a : Nat)
+  | waitDone (w : Nat)
 
 /-- An entry of `_resolvers` / `_rejectors`. `wrap f q`: `wrap_callback(f)` with chained promise `q`;
 `direct q`: the bound `q.do_resolve` (on `_resolvers`) or `q.do_reject` (on `_rejectors`). -/
@@ -199,8 +205,8 @@ def finish (r : Val) (q : Nat) (s : State) : State :=
 nested `do_resolve`/`do_reject`, whose notification runs (frame on top) before the `finish` frame. -/
 def callFn (f : Fn) (q : Nat) (v : Val) (s : State) : State :=
   match f with
-  | .script id acts out => push (.script v acts (.wrapper out q)) (emit (.call id v) s)
-  | .bind b p => settle b p v (push (.finish v q) (emit (.direct p) s))
+  | .user (.script id acts out) => push (.script v acts (.wrapper out q)) (emit (.call id v) s)
+  | .user (.bind b p) => settle b p v (push (.finish v q) (emit (.direct p) s))
   | .adopt b p => settle b p v (push (.finish v q) s)
   | .allThen a i =>
     match s.colls[a]? with
@@ -247,7 +253,7 @@ def collect (m : Mode) (ps : List Nat) (s : State) : State :=
 /-- One statement. `arg` is the argument of the enclosing user function. -/
 def act (arg : Val) (a : Act) (s : State) : State :=
   match a with
-  | .then_ p r j => thenOp p r j s
+  | .then_ p r j => thenOp p (r.map .user) (j.map .user) s
   | .settle b p v => if p < s.heap.length then settle b p v (emit (.direct p) s) else emit .badRef s
   | .settleArg b p => if p < s.heap.length then settle b p arg (emit (.direct p) s) else emit .badRef s
   | .new => newProm .user s
